@@ -223,37 +223,69 @@ list of (component, action); actions that are not enabled cannot be scheduled. -
 /-- **all_schedules_terminate** (data phase, fixed- and variable-size neighbour relations mixed freely).
     Every schedule is finite — its length is bounded by `Σ (3·(#send indices + #receive indices) + 4)` — and a schedule
     that cannot be extended (no action of any component enabled: a maximal execution) ends with every component in its
-    final state: both counters counted down, nothing in flight, send and receive tracker finished. -/
+    final state (both counters counted down, nothing in flight, send and receive tracker finished) **and with the same
+    scatter calls whatever the schedule was**: component `i` has made exactly `expectedCalls` of `specs[i]`. -/
 theorem all_schedules_terminate (B : Nat) (specs : List (PairSpec α))
     (hv : ∀ p ∈ specs, p.recvIdx.length = p.sendIdx.length ∧ Fits p.h B p.f p.sendIdx)
     (sched : List (Nat × Action)) (ss' : List (Comp α (List (Call α))))
     (he : sysExec (specs.map (dataInit B)) sched = some ss') :
     sched.length ≤ (specs.map fun p => 3 * (p.sendIdx.length + p.recvIdx.length) + 4).sum ∧
-    ((∀ i a, sysStep ss' i a = none) → ∀ x ∈ ss', x.state.final = true) := by
-  have hg : ∀ x ∈ specs.map (dataInit B), Good x := by
-    intro x hx
-    obtain ⟨p, hp, rfl⟩ := List.mem_map.1 hx
-    exact dataInit_good B p (hv p hp).1 (hv p hp).2
-  obtain ⟨hg', hm⟩ := sys_exec_bound sched _ ss' hg he
+    ((∀ i a, sysStep ss' i a = none) →
+      (∀ x ∈ ss', x.state.final = true) ∧
+      ss'.map (fun x => x.state.acc) = specs.map (fun p => expectedCalls p.h p.sendIdx p.recvIdx)) := by
+  have hinit : All2 (GoodData B) specs (specs.map (dataInit B)) :=
+    forall₂_map_right (dataInit B) specs fun p hp => dataInit_good B p (hv p hp).1 (hv p hp).2
+  obtain ⟨hrel, hm⟩ := sys_exec_rel (goodData_closed B) specs sched _ ss' hinit he
   have hb := sysMeasure_map_le (dataInit B) (fun p => 3 * (p.sendIdx.length + p.recvIdx.length) + 4) specs
     (fun p hp => dataInit_measure_le B p (hv p hp).2)
-  exact ⟨by omega, fun hstuck => sys_stuck_final ss' hg' hstuck⟩
+  refine ⟨by omega, fun hstuck => ?_⟩
+  have hfin := sys_stuck_rel (goodData_closed B) specs ss' hrel hstuck
+  constructor
+  · have hall : ∀ (l : List (PairSpec α)) (m : List (Comp α (List (Call α)))),
+        All2 (fun p x => GoodData B p x ∧ x.state.final = true) l m → ∀ x ∈ m, x.state.final = true := by
+      intro l m h
+      induction h with
+      | nil => intro x hx; simp at hx
+      | cons hpx _ ih =>
+        intro x hx
+        rcases List.mem_cons.1 hx with h1 | h1
+        · subst h1; exact hpx.2
+        · exact ih x h1
+    exact hall _ _ hfin
+  · exact map_eq_of_forall₂ (fun x => x.state.acc) (fun p => expectedCalls p.h p.sendIdx p.recvIdx) specs ss' hfin
+      (fun p x hpx => by rw [goodData_final_acc B p x hpx.1 hpx.2, callsOf_eq_expected])
 
-/-- the same for the size pre-exchange phase of variable-size communications -/
+/-- the same for the size pre-exchange phase of variable-size communications: every schedule terminates, and at the
+    end every receiver's size array holds exactly the peer's sizes -/
 theorem all_schedules_terminate_sizes (B : Nat) (hB : 0 < B) (specs : List (PairSpec α))
     (hv : ∀ p ∈ specs, p.recvIdx.length = p.sendIdx.length)
     (sched : List (Nat × Action)) (ss' : List (Comp Nat (List Nat)))
     (he : sysExec (specs.map (sizeInit B)) sched = some ss') :
     sched.length ≤ (specs.map fun p => 3 * (p.sendIdx.length + p.recvIdx.length) + 4).sum ∧
-    ((∀ i a, sysStep ss' i a = none) → ∀ x ∈ ss', x.state.final = true) := by
-  have hg : ∀ x ∈ specs.map (sizeInit B), Good x := by
-    intro x hx
-    obtain ⟨p, hp, rfl⟩ := List.mem_map.1 hx
-    exact sizeInit_good B hB p (hv p hp)
-  obtain ⟨hg', hm⟩ := sys_exec_bound sched _ ss' hg he
+    ((∀ i a, sysStep ss' i a = none) →
+      (∀ x ∈ ss', x.state.final = true) ∧
+      ss'.map (fun x => x.state.acc) = specs.map (fun p => p.sendIdx.map p.h.size)) := by
+  have hinit : All2 (GoodSize B) specs (specs.map (sizeInit B)) :=
+    forall₂_map_right (sizeInit B) specs fun p hp => sizeInit_good B hB p (hv p hp)
+  obtain ⟨hrel, hm⟩ := sys_exec_rel (goodSize_closed B hB) specs sched _ ss' hinit he
   have hb := sysMeasure_map_le (sizeInit B) (fun p => 3 * (p.sendIdx.length + p.recvIdx.length) + 4) specs
     (fun p _ => sizeInit_measure_le B hB p)
-  exact ⟨by omega, fun hstuck => sys_stuck_final ss' hg' hstuck⟩
+  refine ⟨by omega, fun hstuck => ?_⟩
+  have hfin := sys_stuck_rel (goodSize_closed B hB) specs ss' hrel hstuck
+  constructor
+  · have hall : ∀ (l : List (PairSpec α)) (m : List (Comp Nat (List Nat))),
+        All2 (fun p x => GoodSize B p x ∧ x.state.final = true) l m → ∀ x ∈ m, x.state.final = true := by
+      intro l m h
+      induction h with
+      | nil => intro x hx; simp at hx
+      | cons hpx _ ih =>
+        intro x hx
+        rcases List.mem_cons.1 hx with h1 | h1
+        · subst h1; exact hpx.2
+        · exact ih x h1
+    exact hall _ _ hfin
+  · exact map_eq_of_forall₂ (fun x => x.state.acc) (fun p => p.sendIdx.map p.h.size) specs ss' hfin
+      (fun p x hpx => goodSize_final_acc B p x hpx.1 hpx.2)
 
 /-- non-vacuity: a two-component system (one variable-size relation needing two rounds, one fixed-size relation), a
     complete schedule that interleaves them, and its final state -/
